@@ -880,3 +880,81 @@ v5_ack_long_props!(c02_v5_puback_props128, GenericPuback, PubackReasonCode, 0x40
 v5_ack_long_props!(c02_v5_pubrec_props128, GenericPubrec, PubrecReasonCode, 0x50, 125);
 v5_ack_long_props!(c02_v5_pubrel_props128, GenericPubrel, PubrelReasonCode, 0x62, 125);
 v5_ack_long_props!(c02_v5_pubcomp_props128, GenericPubcomp, PubcompReasonCode, 0x70, 125);
+
+// ------------------------------------------------------------------ v3.1.1 string-carrying packets through the builders
+// CONNECT v3.1.1: client id (1 byte), keep-alive, clean session, optional user name + password
+#[kani::proof]
+#[kani::unwind(2)]
+#[kani::stub(core::str::from_utf8, utf8_model)]
+fn c02_v311_connect() {
+    let x: [u8; 4] = kani::any();
+    let ka: u16 = kani::any();
+    let clean: bool = kani::any();
+    let cid = [ascii(x[0])];
+    let cid_s = unsafe { core::str::from_utf8_unchecked(&cid[..]) };
+    // shape 1: no credentials, no will
+    let p = v3_1_1::Connect::builder().client_id(cid_s).unwrap().keep_alive(ka).clean_session(clean).build().unwrap();
+    let expect: [u8; 15] = [0x10, 13, 0, 4, b'M', b'Q', b'T', b'T', 4, (clean as u8) << 1, (ka >> 8) as u8, ka as u8, 0, 1, cid[0]];
+    check_wire(&p, &expect);
+    let (q, used) = v3_1_1::Connect::parse(&expect[2..]).unwrap();
+    assert!(used == 13 && q == p && q.keep_alive() == ka && q.clean_session() == clean, "[C02,C03] CONNECT round trip");
+    core::mem::forget(q);
+    core::mem::forget(p);
+    // shape 2: user name and password (1 byte each)
+    let un = [ascii(x[1])];
+    let un_s = unsafe { core::str::from_utf8_unchecked(&un[..]) };
+    let pw = [x[2]];
+    let p = v3_1_1::Connect::builder().client_id(cid_s).unwrap().keep_alive(ka).clean_session(clean).user_name(un_s).unwrap().password(alloc::vec![pw[0]]).unwrap().build().unwrap();
+    let expect: [u8; 21] = [0x10, 19, 0, 4, b'M', b'Q', b'T', b'T', 4, 0xC0 | (clean as u8) << 1, (ka >> 8) as u8, ka as u8, 0, 1, cid[0], 0, 1, un[0], 0, 1, pw[0]];
+    check_wire(&p, &expect);
+    let (q, used) = v3_1_1::Connect::parse(&expect[2..]).unwrap();
+    assert!(used == 19 && q == p, "[C02,C03] CONNECT with credentials round trip");
+    core::mem::forget(q);
+    core::mem::forget(p);
+}
+
+// SUBSCRIBE / SUBACK / UNSUBSCRIBE v3.1.1 with one entry
+#[kani::proof]
+#[kani::unwind(2)]
+#[kani::stub(core::str::from_utf8, utf8_model)]
+fn c02_v311_subscribe_family() {
+    use crate::mqtt::packet::{SubEntry, SubOpts};
+    let x: [u8; 2] = kani::any();
+    let id: u16 = kani::any();
+    kani::assume(id != 0);
+    let t = [ascii(x[0])];
+    let t_s = unsafe { core::str::from_utf8_unchecked(&t[..]) };
+    let qb = x[1] % 3;
+    let qos = match qb {
+        0 => Qos::AtMostOnce,
+        1 => Qos::AtLeastOnce,
+        _ => Qos::ExactlyOnce,
+    };
+    let e = SubEntry::new(t_s, SubOpts::new().set_qos(qos)).unwrap();
+    let p = v3_1_1::GenericSubscribe::<u16>::builder().packet_id(id).entries(alloc::vec![e]).build().unwrap();
+    let expect: [u8; 8] = [0x82, 6, (id >> 8) as u8, id as u8, 0, 1, t[0], qb];
+    check_wire(&p, &expect);
+    let (q, used) = v3_1_1::GenericSubscribe::<u16>::parse(&expect[2..]).unwrap();
+    assert!(used == 6 && q == p && q.packet_id() == id, "[C02,C03] SUBSCRIBE round trip");
+    core::mem::forget(q);
+    core::mem::forget(p);
+    let rc = match qb {
+        0 => SubackReturnCode::SuccessMaximumQos0,
+        1 => SubackReturnCode::SuccessMaximumQos1,
+        _ => SubackReturnCode::SuccessMaximumQos2,
+    };
+    let p = v3_1_1::GenericSuback::<u16>::builder().packet_id(id).return_codes(alloc::vec![rc]).build().unwrap();
+    let expect: [u8; 5] = [0x90, 3, (id >> 8) as u8, id as u8, qb];
+    check_wire(&p, &expect);
+    let (q, used) = v3_1_1::GenericSuback::<u16>::parse(&expect[2..]).unwrap();
+    assert!(used == 3 && q == p, "[C02,C03] SUBACK round trip");
+    core::mem::forget(q);
+    core::mem::forget(p);
+    let p = v3_1_1::GenericUnsubscribe::<u16>::builder().packet_id(id).entries(alloc::vec![t_s]).unwrap().build().unwrap();
+    let expect: [u8; 7] = [0xA2, 5, (id >> 8) as u8, id as u8, 0, 1, t[0]];
+    check_wire(&p, &expect);
+    let (q, used) = v3_1_1::GenericUnsubscribe::<u16>::parse(&expect[2..]).unwrap();
+    assert!(used == 5 && q == p, "[C02,C03] UNSUBSCRIBE round trip");
+    core::mem::forget(q);
+    core::mem::forget(p);
+}
